@@ -30,6 +30,11 @@ H2Protocol / stream classes on the virtual-time asyncio loop and on instrumented
           frame, one zero byte} from the client - as a later data event injected at every point the server still
           has work to do (M), and, client close, inside one segment that is longer than a single read of the server
           (2^16 bytes) with the late bytes reaching into the second read.
+          Also what follows a REFUSED handshake: the application answers websocket.connect with websocket.close (403),
+          with a complete websocket.http.response, or with one whose body is still open, and stays alive (gated, released
+          by the explorer, then returns); the client sends the same late inputs on that connection (HTTP/1.1) / as DATA
+          on that stream (HTTP/2, followed by a GET on a sibling stream that must complete) - as a later data event and
+          inside a segment longer than one read.
   late    Explorer A over uploads that go on after the response: the application answers POST on the headers
           alone, the client (a real h2 client connection, every DATA command enabled only while the windows granted
           by the server cover it) keeps sending DATA on the answered stream(s) until the whole initial connection
@@ -71,6 +76,7 @@ Oracle clauses
         be sent because the server closed the connection counts as incomplete.  Streams that are themselves the
         unusual request are never judged ("affects at most its own stream").  key = h2:<oddities sent so far>
         (other-stream-incomplete) or h2:<request kind>:<what is missing> (stream-not-served: no oddity involved).
+        wsafter, refused handshake: key = h2:data-after-refused-websocket:<application>.
         late: key = h2:data-after-response:<upload-blocked | no-response | status-N | partial | reset-N>; upload-blocked
         = the sibling's DATA never became sendable for a client that respects flow control.
         flood: stream-not-served key = h2:after-flood | h2:during-flood.
@@ -123,11 +129,11 @@ BOUNDS_DOC = {
     "quick": "short strings len<=3; mutations of 8 sessions: all on asyncio, 4 operators on trio; splices of 6 sessions "
              "whole+split (trio whole); 12 floods of 1100 frames whole / reads of 64 / (the 4 PRIORITY floods) mixed "
              "with 1100 GETs; odd and wsafter (2 carriers x 4 closers x 4 late inputs, + one-segment-two-reads on "
-             "ws/h1): M<=1,S<=2; late (window 65535 in 16384 byte frames; shapes one, two; sibling before/after): "
+             "ws/h1; 3 refusing applications x 4 late inputs, + one-segment-two-reads for the text frame): M<=1,S<=2; late (window 65535 in 16384 byte frames; shapes one, two; sibling before/after): "
              "M<=1,S<=1; grammar BFS depth 3 on asyncio, 2 on trio",
     "thorough": "short strings len<=4 (asyncio; 3 on trio); all mutations on both engines with EOF and idle-timer "
                 "endings; splices; all floods in all three feeds; odd and wsafter (two-reads segment on both "
-                "carriers): M<=2,S<=3 (trio: M<=1,S<=3,R<=1); late (shapes one, one_end, two): M<=1,S<=2 (trio R<=1); "
+                "carriers, refused handshakes with every late input in both feeds): M<=2,S<=3 (trio: M<=1,S<=3,R<=1); late (shapes one, one_end, two): M<=1,S<=2 (trio R<=1); "
                 "grammar BFS depth 4 (full alphabet, both engines) and depth 5 (core alphabet, asyncio)",
 }
 BUDGET = {"quick": 90, "thorough": 1200}
@@ -166,6 +172,21 @@ FLOOD_HEAD = ("priority_reparent", "winup_closed", "rst_closed", "data_empty")  
 
 # ws-after: what closes the WebSocket x what the client sends afterwards x how it reaches the server
 WSAFTER_CLOSERS = {"client_close": b"/w", "app_return": b"/ret", "app_close": b"/close", "app_raise": b"/raise"}
+# ... and what REFUSES it: the application answers the handshake with websocket.close (403) / with the
+# websocket.http.response extension (complete, or its body still open) and then stays alive on a gate, as frameworks
+# do that wait for websocket.disconnect; the explorer releases it (the application then returns)
+WSAFTER_REJECTERS = {"app_reject": b"/rej", "app_response": b"/resp", "app_response_open": b"/respopen"}
+_WS_START = {"type": "websocket.http.response.start", "status": 403, "headers": [(b"content-length", b"2")]}
+_WS_START_OPEN = {"type": "websocket.http.response.start", "status": 403, "headers": []}
+WSAFTER_APPS = {
+    **APPS,
+    "websocket:/rej": [("recv",), ("send", {"type": "websocket.close"}), ("gate", "g"), ("return",)],
+    "websocket:/resp": [("recv",), ("send", _WS_START),
+                        ("send", {"type": "websocket.http.response.body", "body": b"no"}), ("gate", "g"), ("return",)],
+    "websocket:/respopen": [("recv",), ("send", _WS_START_OPEN),
+                            ("send", {"type": "websocket.http.response.body", "body": b"n", "more_body": True}),
+                            ("gate", "g"), ("return",)],
+}
 WSAFTER_LATE = {"ping": ws_frame(OP_PING, b"late"), "text": ws_frame(OP_TEXT, b"more"),
                 "close": ws_close_frame(1000, "again"), "byte": b"\x00"}
 MAX_RECV = 2 ** 16  # what one read of either worker returns at most (documented constant of both TCP servers)
@@ -213,6 +234,11 @@ def scenarios(tier: str) -> List[Any]:
                     out.append(("wsafter", engine, carrier, closer, late, "events"))
                     if closer == "client_close" and (thorough or carrier == "ws/h1"):
                         out.append(("wsafter", engine, carrier, closer, late, "bigread"))
+            for closer in WSAFTER_REJECTERS:
+                for late in WSAFTER_LATE:
+                    out.append(("wsafter", engine, carrier, closer, late, "events"))
+                    if thorough or late == "text":
+                        out.append(("wsafter", engine, carrier, closer, late, "bigread"))
         for shape in LATE_SHAPES:
             if thorough or shape != "one_end":
                 for arr in ("sib_open", "sib_after"):
@@ -246,8 +272,9 @@ def bounds(tier: str, params: Any) -> dict:
 # building and judging one execution on raw client bytes
 
 
-def _scenario(conn: dict, sources: List[tuple], midflight: bool = False, trio_rev: bool = False) -> dict:
-    return {"level": "conn", "conns": {0: conn}, "client_factory": make_raw_client, "apps": APPS,
+def _scenario(conn: dict, sources: List[tuple], midflight: bool = False, trio_rev: bool = False,
+              apps: Optional[dict] = None) -> dict:
+    return {"level": "conn", "conns": {0: conn}, "client_factory": make_raw_client, "apps": apps or APPS,
             "config": {"keep_alive_timeout": 5, **conn.get("cfg", {})}, "sources": sources, "midflight": midflight,
             "trio_rev": trio_rev}
 
@@ -704,7 +731,32 @@ def oracle_odd(w: Any, params: tuple) -> List[dict]:
 # wsafter: Explorer A over what a client sends once its WebSocket has been closed
 
 
+WSAFTER_SIBLING = 3  # ws/h2, refused handshake: an ordinary GET on the same connection, sent after the late DATA
+
+
+def _wsafter_refused_events(carrier: str, closer: str, late: str, feed: str) -> List[tuple]:
+    """The handshake that the application refuses, then bytes on that connection / stream: as a data event of their
+    own (reaching the server while the application is still alive, or after), or as one segment longer than a
+    single read of the server.  Over HTTP/2 a GET on a sibling stream follows."""
+    path, more = WSAFTER_REJECTERS[closer], WSAFTER_LATE[late]
+    if carrier == "ws/h1":
+        tail = more if feed == "events" else more * (MAX_RECV // len(more) + 2)
+        data = [ws_h1_handshake(path), tail]
+    else:
+        hs = h2_preamble() + f_headers(1, ws_h2_headers(path), False)
+        sib = f_headers(WSAFTER_SIBLING, _GET_NOW, True)
+        if feed == "events":
+            data = [hs, f_data(1, more, False), sib]
+        else:  # PING frames up to the end of the first read, late DATA and the sibling reach into the second
+            seg = f_data(1, more, False) + f_ping() * (MAX_RECV // len(f_ping()) + 1)
+            data = [hs, seg + f_data(1, more, False) + sib]
+    # (ws/h2: no EOF, which - injected mid-flight - would rightly cut the sibling's response short)
+    return [("data", 0, d) for d in data] + ([("eof", 0)] if carrier == "ws/h1" else [])
+
+
 def _wsafter_events(carrier: str, closer: str, late: str, feed: str) -> List[tuple]:
+    if closer in WSAFTER_REJECTERS:
+        return _wsafter_refused_events(carrier, closer, late, feed)
     path = WSAFTER_CLOSERS[closer]
     text, close, more = ws_frame(OP_TEXT, b"yo"), ws_close_frame(1000, "bye"), WSAFTER_LATE[late]
     if feed == "bigread":
@@ -738,7 +790,7 @@ def build_wsafter(params: tuple) -> tuple:
     sources = [("client", _wsafter_events(carrier, closer, late, feed))]
     if closer != "client_close":
         sources.append(("app", [("release", "g")]))
-    return engine, _scenario(conn, sources, midflight=True, trio_rev=True)
+    return engine, _scenario(conn, sources, midflight=True, trio_rev=True, apps=WSAFTER_APPS)
 
 
 def oracle_wsafter(w: Any, params: tuple) -> List[dict]:
@@ -746,9 +798,20 @@ def oracle_wsafter(w: Any, params: tuple) -> List[dict]:
     out = _internal(w, carrier)
     if carrier == "ws/h2":
         rec = w.conns[0]
-        err = h2_expect([e[2] for _, e in w.driver.fired if e[0] == "data"])
+        segs = [e[2] for _, e in w.driver.fired if e[0] == "data"]
+        err = h2_expect(segs)
         if err is not None and rec.closed_at is None and not out:
             out.append(V("h2-violation-not-closed", f"{carrier}:{err}", f"{closer}/{late}/{feed}: reference {err}"))
+        if closer in WSAFTER_REJECTERS and err is None:
+            # DATA on the stream of a refused handshake concerns that stream alone: the GET next to it completes
+            nsegs = len(_wsafter_refused_events(carrier, closer, late, feed))
+            st = rec.client.h2.streams.get(WSAFTER_SIBLING)
+            served = st is not None and st["status"] == 200 and st["body"] == b"abc" and st["ended"]
+            if not served and (len(segs) == nsegs or rec.closed_at is not None):
+                sent = "sent" if len(segs) == nsegs else "could not be sent: the server closed the connection"
+                out.append(V("other-stream-incomplete", f"h2:data-after-refused-websocket:{closer}",
+                             f"{late}/{feed}: sibling stream {WSAFTER_SIBLING} ({sent}) got {st}; closed_at={rec.closed_at} "
+                             f"goaway={rec.client.h2.goaway} handler={rec.handler}"))
     return out
 
 
